@@ -106,7 +106,15 @@ pub fn main(args: &[String]) {
                 // ENVIRONMENT: a destination that fails ONCE (disk full, then space freed) while the application keeps using
                 // the writer: whatever reaches the destination afterwards must still hold no plaintext
                 if par.stack.enc {
-                    for fail_at in (1usize..=40).chain([55, 89]) {
+                    // (the header alone takes dozens of small writes: failures are placed after it)
+                    let header_calls = {
+                        let probe = SharedSink::new();
+                        let _ = archive::Driver::new(&par, probe.clone());
+                        let n = *probe.calls.borrow() as usize;
+                        n
+                    };
+                    for k in (0usize..=40).chain([55, 89]) {
+                        let fail_at = header_calls + k;
                         let mut sched = vec![1i64 << 30; fail_at];
                         sched.push(-1);
                         sched.extend(std::iter::repeat(1i64 << 30).take(100_000));
